@@ -1,7 +1,7 @@
 (* C10 -- A script parses to the concatenation of its statements.  Statements only.
    Model: Parse/Model.v statements_loop (SQLParser.parse_statements: loop { statement ; optional ';' } then close). *)
 From Coq Require Import List NArith ZArith Bool String Ascii Lia.
-Require Import Base.Common Gen.LexTable Lex.Model Cur.Model Tree.Value Gen.Static Parse.Prim Parse.Model Parse.LoopProofs Parse.ScriptFacts.
+Require Import Base.Common Gen.LexTable Lex.Model Cur.Model Tree.Value Gen.Static Parse.Prim Parse.Model Parse.LoopProofs Parse.ScriptFacts Parse.Extend.
 Import ListNotations.
 Open Scope string_scope.
 Open Scope list_scope.
@@ -42,7 +42,41 @@ Theorem C10_example : forall d final,
   = Ok [val_of 30 d use_block; val_of 30 d select_block; val_of 30 d drop_block; val_of 30 d delete_block; val_of 30 d set_block].
 Proof. intros d final. apply (C10_script_is_concatenation 30 d _ final 6 (C10_items_exist d)). simpl. lia. Qed.
 
+(* 5. The parser does not look past a separator (Parse/Extend.v, a sweep over the whole parser model): whatever follows a ';'
+   token, a parse function that returned (v, R) on ts returns (v, R ++ ';' :: E) on ts ++ ';' :: E -- same tree, same consumption.
+   (All parse functions except the statement dispatcher and CREATE TABLE, which may swallow the one ';' that follows it.) *)
+Theorem C10_no_lookahead_past_separator :
+  forall fuel f d a ts v R E, strict f = true ->
+    run fuel f d a ts = Ok (v, R) -> run fuel f d a (ts ++ semi :: E) = Ok (v, R ++ semi :: E).
+Proof. intros fuel f d a ts v R E Hs H. exact (run_extend fuel f d a ts v R E Hs H). Qed.
+Theorem C10_statement_and_separator :
+  forall fuel d ts v R E, run fuel F_statement d None ts = Ok (v, R) ->
+    run fuel F_statement d None (ts ++ semi :: E) = Ok (v, R ++ semi :: E) \/
+    (R = [] /\ run fuel F_statement d None (ts ++ semi :: E) = Ok (v, E)).
+Proof. intros fuel d ts v R E H. exact (statement_extend fuel d ts v R E H). Qed.
+
+(* 6. Hence C10 with no hypothesis on how a statement stops: ANY statements that each parse on their own (completely), joined by
+   ';' with or without a final one, parse to exactly their stand-alone trees in order.  Every dialect, every fuel, any length. *)
+Theorem C10_script_of_standalone_statements :
+  forall fuel d items final n,
+    Forall (standalone fuel d) items -> (List.length items < n)%nat ->
+    statements_loop n fuel d (script items final) [] = Ok (map si_val items).
+Proof. intros fuel d items final n H Hn. exact (script_of_standalone fuel d items final n [] H Hn). Qed.
+
+(* non-vacuity, including the statement that swallows a separator itself *)
+Definition create_block := [W "CREATE"; W "TABLE"; Nm "t"; Group KPar [Nm "a"; Nm "INT"; W ","; Nm "b"; Nm "INT"]; W "ENGINE"; W "="; Nm "InnoDB"].
+Example C10_standalone_items_exist : forall d,
+  Forall (standalone 30 d) [mksi (val_of 30 d create_block) create_block; mksi (val_of 30 d select_block) select_block;
+                            mksi (val_of 30 d create_block) create_block; mksi (val_of 30 d use_block) use_block].
+Proof. intros d. repeat (apply Forall_cons; [destruct d; vm_compute; reflexivity|]). apply Forall_nil. Qed.
+Example C10_create_block_is_a_tree : match run 30 F_statement D_MYSQL None create_block with Ok (VNode _ _, []) => True | _ => False end.
+Proof. vm_compute. exact I. Qed.
+
 Print Assumptions C10_script_is_concatenation.
 Print Assumptions C10_standalone.
 Print Assumptions C10_items_exist.
 Print Assumptions C10_example.
+Print Assumptions C10_no_lookahead_past_separator.
+Print Assumptions C10_statement_and_separator.
+Print Assumptions C10_script_of_standalone_statements.
+Print Assumptions C10_standalone_items_exist.
